@@ -4,6 +4,7 @@ package c13
 import (
 	"bytes"
 	"crypto"
+	"encoding/binary"
 	"fmt"
 	"io"
 	"os"
@@ -195,8 +196,27 @@ func genCase(t *rapid.T) Case {
 				blobs = append(blobs, e.Blob)
 			}
 		}
-		blobs = append(blobs, blob)
-		out, werr := acode.WithTable(img, acode.BuildTable(blobs))
+		table := acode.BuildTable(blobs)
+		if rapid.IntRange(0, 4).Draw(t, "typedentry") == 0 {
+			// the new entry is of another WIN_CERTIFICATE type (a UEFI_GUID certificate, PKCS#1, reserved values),
+			// and may be shorter than what that type needs
+			if rapid.Bool().Draw(t, "shortbody") {
+				blob = gen.FillBytes(t, rapid.IntRange(0, 23).Draw(t, "bodylen"))
+			}
+			typ := rapid.SampledFrom([]uint16{0x0ef1, 0x0ef0, 0x0001, 0x0000, 0xffff}).Draw(t, "wintype")
+			e := binary.LittleEndian.AppendUint32(nil, uint32(8+len(blob)))
+			e = binary.LittleEndian.AppendUint16(e, 0x0200)
+			e = binary.LittleEndian.AppendUint16(e, typ)
+			e = append(e, blob...)
+			for len(e)%8 != 0 {
+				e = append(e, 0)
+			}
+			table = append(table, e...)
+			class = fmt.Sprintf("wintype_%#04x:%s", typ, class)
+		} else {
+			table = append(table, acode.BuildTable([][]byte{blob})...)
+		}
+		out, werr := acode.WithTable(img, table)
 		if werr != nil {
 			out = img
 		}
